@@ -957,7 +957,10 @@ func (sc *segmentController[T, O]) load(ctx context.Context, start, end time.Tim
 }
 
 func (sc *segmentController[T, O]) remove(deadline time.Time) (hasSegment bool, err error) {
-	ss, _ := sc.segments(context.Background(), false)
+	// Housekeeping only reads the immutable range of a segment and flags it for deletion: it
+	// takes no reference. (Pinning "if already open" and releasing unconditionally dropped the
+	// reference of a holder that acquired a dormant segment in between.)
+	ss := sc.copySegments()
 	for _, s := range ss {
 		if s.Before(deadline) {
 			hasSegment = true
@@ -968,7 +971,6 @@ func (sc *segmentController[T, O]) remove(deadline time.Time) (hasSegment bool, 
 			sc.Unlock()
 			sc.l.Info().Stringer("segment", s).Msg("removed a segment")
 		}
-		s.DecRef()
 	}
 	return hasSegment, err
 }
@@ -990,7 +992,10 @@ func (sc *segmentController[T, O]) getExpiredSegmentsTimeRange() *timestamp.Time
 		IncludeStart: true,
 		IncludeEnd:   false,
 	}
-	ss, _ := sc.segments(context.Background(), false)
+	// Housekeeping only reads the immutable range of a segment and flags it for deletion: it
+	// takes no reference. (Pinning "if already open" and releasing unconditionally dropped the
+	// reference of a holder that acquired a dormant segment in between.)
+	ss := sc.copySegments()
 	for _, s := range ss {
 		if s.Before(deadline) {
 			if timeRange.Start.IsZero() {
@@ -998,7 +1003,6 @@ func (sc *segmentController[T, O]) getExpiredSegmentsTimeRange() *timestamp.Time
 			}
 			timeRange.End = s.End
 		}
-		s.DecRef()
 	}
 	return timeRange
 }
@@ -1006,7 +1010,10 @@ func (sc *segmentController[T, O]) getExpiredSegmentsTimeRange() *timestamp.Time
 func (sc *segmentController[T, O]) deleteExpiredSegments(segmentSuffixes []string) int64 {
 	deadline := sc.clock.Now().Local().Add(-sc.opts.TTL.estimatedDuration())
 	var count int64
-	ss, _ := sc.segments(context.Background(), false)
+	// Housekeeping only reads the immutable range of a segment and flags it for deletion: it
+	// takes no reference. (Pinning "if already open" and releasing unconditionally dropped the
+	// reference of a holder that acquired a dormant segment in between.)
+	ss := sc.copySegments()
 	sc.l.Info().Str("segment_suffixes", fmt.Sprintf("%s", segmentSuffixes)).
 		Str("ttl", fmt.Sprintf("%d(%s)", sc.opts.TTL.Num, sc.opts.TTL.Unit)).
 		Str("deadline", deadline.String()).
@@ -1034,7 +1041,6 @@ func (sc *segmentController[T, O]) deleteExpiredSegments(segmentSuffixes []strin
 				Str("segment_time_range", s.GetTimeRange().String()).
 				Msg("segment is not expired or not in the time range, skipping deletion")
 		}
-		s.DecRef()
 	}
 	return count
 }
